@@ -308,27 +308,27 @@ def run(ctx):
     for fl in flavours(ctx):
         ctx.unit = fl
         ctx.doc('C13.6', 'native API forwarding: each public entry point of this property reaches the implementation of the same name with its parameters in order and returns its result (sibling slips such as trylock -> lock, signal -> broadcast, swapped arguments)')
-        lib.native_forwarding(ctx, 'C13.6', fl, lambda n: n in ('myth_join', 'myth_tryjoin', 'myth_timedjoin', 'myth_detach', 'myth_thread_attr_setdetachstate', 'myth_thread_attr_getdetachstate'), floor=8)
+        ctx.attempt(lib.native_forwarding, ctx, 'C13.6', fl, lambda n: n in ('myth_join', 'myth_tryjoin', 'myth_timedjoin', 'myth_detach', 'myth_thread_attr_setdetachstate', 'myth_thread_attr_getdetachstate'), floor=8)
         stops = ('myth_queue_push', 'myth_queue_pop', DESC_FREE, 'myth_get_current_env_noinline', 'myth_tryjoin_body',
                  'myth_timespec_gt', 'hr_gettime', 'myth_yield_ex_body') + lib.SPIN_STOPS
         v = ctx.view(NATIVE, roots=['myth_join_body', 'myth_tryjoin_body', 'myth_detach_body', 'myth_timedjoin_body'],
                      stops=stops, flavour=fl)
-        rule1_once(ctx, v)
-        rule2_detachstate(ctx, fl)
-        rule3_recycle(ctx, fl)
-        rule4_timed(ctx, v)
-        rule5_finisher(ctx, fl)
+        ctx.attempt(rule1_once, ctx, v)
+        ctx.attempt(rule2_detachstate, ctx, fl)
+        ctx.attempt(rule3_recycle, ctx, fl)
+        ctx.attempt(rule4_timed, ctx, v)
+        ctx.attempt(rule5_finisher, ctx, fl)
         from . import c12
         ctx.doc('C13.7', 'the reaping entry points do not use a worker env obtained before they blocked (stale-value dataflow, shared with '
                 'C12.3): a record released to the free list of the worker the joiner started on is never found again by the worker '
                 'that allocates, so create/reap cycles grow without bound')
-        c12.rule3_env(ctx, fl, rule='C13.7', only=['myth_join', 'myth_tryjoin', 'myth_timedjoin', 'myth_detach'], units=[(NATIVE, None)])
+        ctx.attempt(c12.rule3_env, ctx, fl, rule='C13.7', only=['myth_join', 'myth_tryjoin', 'myth_timedjoin', 'myth_detach'], units=[(NATIVE, None)])
         with ctx.shared({'C12.4': 'C13.8'}, keep=lambda k: k.startswith(('alloc:', 'free:', 'alloc and free')), floor=12,
                         doc='reaping recycles the stack (shared with C12.4): the release reads the block size the allocation wrote into the '
                             'stack header, so a custom-size stack returns to the size class it will be taken from again'):
             v2 = ctx.view(NATIVE, roots=['get_new_myth_thread_struct_stack', c12.STACK_FREE, 'myth_flmalloc', 'myth_flfree'],
                           stops=('myth_freelist_pop', 'myth_freelist_push', 'myth_mmap'), flavour=fl)
-            c12.rule4_affine(ctx, v2)
+            ctx.attempt(c12.rule4_affine, ctx, v2)
 
 
 SCHED = 'src/myth_sched_func.h'
